@@ -471,10 +471,10 @@ Qed.
 Print Assumptions C01_transcript_honest_partial.
 
 (* the handshake hash used in the runs is injective: the hypothesis is satisfiable *)
-Theorem C01_transcript_hash_instance_partial :
+Theorem C01_transcript_hash_instance :
   forall a b, H_inst a = H_inst b -> a = b.
 Proof. exact H_inst_inj. Qed.
-Print Assumptions C01_transcript_hash_instance_partial.
+Print Assumptions C01_transcript_hash_instance.
 
 (* ---- the prologue (WebRTC: "libp2p-webrtc-noise:" ++ the two DTLS fingerprints) ---- *)
 (* a handshake run under one pair of fingerprints is rejected under another: with different
@@ -622,15 +622,15 @@ Print Assumptions C01_dy_listener_authenticates.
 (* AGREEMENT ON THE TRANSCRIPT, for any number of interleaved sessions and WITHOUT a no-forgery
    hypothesis (the attacker's inability to make a ciphertext under a key it does not know is derived
    from the closure rules).  Dialer: the ephemeral key g^y and the static key g^rs it received
-   belong to ONE listener session of the uncompromised P it believes in, that session was created
-   with the SAME PROLOGUE (WebRTC: the same pair of DTLS fingerprints), and the message 2 it
-   accepted is, component for component, the one that session builds in answer to this dialer's
-   own ephemeral key *)
+   belong to ONE listener session of the uncompromised P it believes in, that session HAS WRITTEN
+   message 2 in answer to this very dialer's ephemeral key (event Answered), it was created with the
+   SAME PROLOGUE (WebRTC: the same pair of DTLS fingerprints), and the message 2 the dialer accepted
+   is, component for component, that message *)
 Theorem C01_dy_dialer_agreement :
   forall (pro : N -> list N) (asec bad : N -> Prop) tr a e s P rs K,
     DY.valid pro asec bad tr -> In (DY.AcceptD a e s P rs K) tr -> ~ bad P ->
-    exists y, K = DY.d_key e s y rs /\ In (DY.NewL P y rs) tr /\ pro e = pro y /\
-              DY.msg2_expected pro e y rs P = DY.msg2 pro P y rs e.
+    exists y, K = DY.d_key e s y rs /\ In (DY.NewL P y rs) tr /\ In (DY.Answered P y rs e) tr /\
+              pro e = pro y /\ DY.msg2_expected pro e y rs P = DY.msg2 pro P y rs e.
 Proof. exact DY.dialer_agreement. Qed.
 Print Assumptions C01_dy_dialer_agreement.
 
